@@ -11,6 +11,7 @@ from __future__ import annotations
 
 import argparse
 import importlib
+import inspect
 import json
 import os
 import sys
@@ -79,16 +80,43 @@ def shrink(suite: Suite, case, fails, limit=400):
     return cur
 
 
-def run_suite(ctx: core.Ctx, suite: Suite, cases, *, chunk=4000):
+_POOL_SUITE = None
+
+
+def _pool_job(sub):
+    return _POOL_SUITE.impl_batch(sub)
+
+
+def _impl_parallel(suite, part):
+    """Run impl_batch over forked worker processes (the suite object is inherited by fork)."""
+    global _POOL_SUITE
+    import multiprocessing as mp
+
+    n = min(int(os.environ.get("VERIF_JOBS", "14")), os.cpu_count() or 2)
+    if n <= 1:
+        return suite.impl_batch(part)
+    _POOL_SUITE = suite
+    size = max(50, (len(part) + n * 4 - 1) // (n * 4))
+    subs = [part[i:i + size] for i in range(0, len(part), size)]
+    with mp.get_context("fork").Pool(n) as pool:
+        res = pool.map(_pool_job, subs)
+    out = []
+    for r in res:
+        out.extend(r)
+    return out
+
+
+def run_suite(ctx: core.Ctx, suite: Suite, cases, *, chunk=20000):
     cases = list(cases)
     for start in range(0, len(cases), chunk):
         part = cases[start:start + chunk]
-        obs = suite.impl_batch(part)
+        obs = _impl_parallel(suite, part) if (getattr(suite, "parallel", False) and len(part) >= 1000) else suite.impl_batch(part)
         mobs = [None] * len(part)
         if suite.uses_model and ctx.model_available:
             idx, lines = [], []
+            takes_obs = len(inspect.signature(suite.model_line).parameters) >= 2
             for i, c in enumerate(part):
-                ml = suite.model_line(c)
+                ml = suite.model_line(c, obs[i]) if takes_obs else suite.model_line(c)
                 if ml is not None:
                     idx.append(i)
                     lines.append(ml)
